@@ -405,7 +405,6 @@ impl NetcodeServer {
                 packet.packet_type()
             );
 
-            client.last_packet_received_time = self.current_time;
             match client.state {
                 ConnectionState::Connected => match packet {
                     Packet::Disconnect => {
@@ -420,6 +419,7 @@ impl NetcodeServer {
                         });
                     }
                     Packet::Payload(payload) => {
+                        client.last_packet_received_time = self.current_time;
                         if !client.confirmed {
                             log::trace!("Confirmed connection for Client {}", client.client_id);
                             client.confirmed = true;
@@ -430,6 +430,7 @@ impl NetcodeServer {
                         });
                     }
                     Packet::KeepAlive { .. } => {
+                        client.last_packet_received_time = self.current_time;
                         if !client.confirmed {
                             log::trace!("Confirmed connection for Client {}", client.client_id);
                             client.confirmed = true;
@@ -450,7 +451,6 @@ impl NetcodeServer {
                 Some(&pending.receive_key),
                 Some(&mut pending.replay_protection),
             )?;
-            pending.last_packet_received_time = self.current_time;
             log::trace!("Received packet from pending client ({}): {:?}", addr, packet.packet_type());
             match packet {
                 Packet::ConnectionRequest {
@@ -488,6 +488,7 @@ impl NetcodeServer {
                         Some(client_index) => {
                             pending.state = ConnectionState::Connected;
                             pending.user_data = challenge_token.user_data;
+                            pending.last_packet_received_time = self.current_time;
                             pending.last_packet_send_time = self.current_time;
 
                             let packet = Packet::KeepAlive {
